@@ -53,7 +53,15 @@ def geom_cases(draw):
         c = draw(sc.g8)
     Delta = 10.0 ** draw(st.integers(-4, 1)) * draw(st.sampled_from([1.0, 2.5, 7.0]))
     xs = draw(st.sampled_from([0.0, 1.0, 1.0, 100.0]))
-    return {"n": n, "g": g, "c": c, "Delta": Delta, "lo": [draw(sidev) for _ in range(n)], "up": [draw(sidev) for _ in range(n)],
+    lo = [draw(sidev) for _ in range(n)]
+    up = [draw(sidev) for _ in range(n)]
+    if draw(st.integers(0, 5)) == 0:
+        # a box that is centred on xbase up to a relative asymmetry of 1e-11 .. 1e-6 (symmetric bounds after a base shift are
+        # centred only up to rounding): mirror-image shortcuts between the min and the max problem are wrong here
+        asym = draw(st.sampled_from([1e-11, 1e-9, 1e-7, 1e-6]))
+        lo = [v if v < 1e19 and v > 0 else 0.3 for v in lo]
+        up = [v * (1.0 + asym) if draw(st.booleans()) else v / (1.0 + asym) for v in lo]
+    return {"n": n, "g": g, "c": c, "Delta": Delta, "lo": lo, "up": up,
             "xbase": [draw(sc.g10) * xs for _ in range(n)]}
 
 
